@@ -22,6 +22,11 @@ func init() {
 	// c10c: the same enumeration with the chunked handler as L1 and values of several chunks;
 	// judged by the oracles alone (check10c)
 	commands["c10c"] = func(e *env) { c10(e, true) }
+	// c10b: both tiers served by the batching handler (handlers/memcached/batched) over unix
+	// sockets, one pool per tier shared by all the cases of the run as in a deployment, so a
+	// pooled connection wedged by one fault shows in the cases after it; judged by the oracles
+	// alone (check10c): the pool retries gets by itself, which Faults.v does not model
+	commands["c10b"] = func(e *env) { batchedTiers = true; sockEnv = e; c10(e, false) }
 }
 
 type fCase struct {
@@ -96,9 +101,36 @@ type fObs struct {
 	crashed   string
 }
 
+var (
+	c10bB        *stack.Backends
+	c10bSock1    string
+	c10bSock2    string
+)
+
 func runFault(c fCase, arm bool) fObs {
 	var o fObs
-	b := stack.NewBackends()
+	var b *stack.Backends
+	if batchedTiers {
+		if c10bB == nil {
+			c10bB = stack.NewBackends()
+			c10bSock1, c10bSock2 = newSock(sockEnv), newSock(sockEnv)
+			if _, err := c10bB.L1.ListenUnix(c10bSock1); err != nil {
+				rig.Die("listen: %v", err)
+			}
+			if _, err := c10bB.L2.ListenUnix(c10bSock2); err != nil {
+				rig.Die("listen: %v", err)
+			}
+		}
+		b = c10bB
+		for _, k := range b.L1.Keys() {
+			b.L1.Evict(k)
+		}
+		for _, k := range b.L2.Keys() {
+			b.L2.Evict(k)
+		}
+	} else {
+		b = stack.NewBackends()
+	}
 	b.L1.SetNow(fNow)
 	b.L2.SetNow(fNow)
 	orcaOf := func(port string) string {
@@ -111,6 +143,9 @@ func runFault(c fCase, arm bool) fObs {
 		return "l1l2"
 	}
 	cfg := stack.Config{Orca: orcaOf("main"), Locked: c.Locked, MultiRd: true, L1: c.L1, Proto: c.Proto}
+	if batchedTiers {
+		cfg.L1Sock, cfg.L2Sock = c10bSock1, c10bSock2
+	}
 	cn := stack.Dial(b, cfg)
 	enc := func(r stack.Req) []byte {
 		if c.Proto == "text" {
@@ -281,7 +316,12 @@ func c10(e *env, chunkedL1 bool) {
 		}
 		cfgs := []cfgT{{"l1l2", "main", "bin", "std", false}, {"l1l2", "batch", "bin", "std", false}, {"l1only", "main", "bin", "std", false},
 			{"l1l2", "main", "text", "std", false}, {"l1l2", "main", "bin", "std", true}}
-		if chunkedL1 {
+		if batchedTiers {
+			cfgs = []cfgT{{"l1only", "main", "bin", "std", false}, {"l1l2", "main", "bin", "std", false}, {"l1l2", "batch", "bin", "std", false}}
+			if thorough {
+				cfgs = append(cfgs, cfgT{"l1l2", "main", "text", "std", false}, cfgT{"l1l2", "main", "bin", "std", true})
+			}
+		} else if chunkedL1 {
 			cfgs = []cfgT{{"l1only", "main", "bin", "chunked", false}, {"l1l2", "main", "bin", "chunked", false}}
 			if thorough {
 				cfgs = append(cfgs, cfgT{"l1l2", "batch", "bin", "chunked", false}, cfgT{"l1only", "main", "text", "chunked", false}, cfgT{"l1l2", "main", "bin", "chunked", true})
@@ -329,10 +369,13 @@ func c10(e *env, chunkedL1 bool) {
 								if tailOnly {
 									fks = []string{"close-tail"}
 								}
+								if batchedTiers {
+									fks = []string{"close-before", "close-after-reply", "close-mid", "status"}
+								}
 								for _, fk := range fks {
 									sts := []uint16{0}
 									if fk == "status" {
-										if thorough || (cf.deploy == "l1l2" && cf.proto == "bin" && !cf.locked && cf.l1 == "std") {
+										if thorough || (!batchedTiers && cf.deploy == "l1l2" && cf.proto == "bin" && !cf.locked && cf.l1 == "std") {
 											// every status on the main and on the batch port of the standard configuration
 											sts = faultStatuses
 										} else {
@@ -357,7 +400,7 @@ func c10(e *env, chunkedL1 bool) {
 			}
 		}
 	}
-	if replayArg(e) == "" && !chunkedL1 && !tailOnly {
+	if replayArg(e) == "" && !chunkedL1 && !tailOnly && !batchedTiers {
 		c15L2Down(w) // a backend that cannot be reached when a client connects is a backend fault too
 	}
 	nhang := 0
@@ -404,6 +447,10 @@ func c10(e *env, chunkedL1 bool) {
 	if tailOnly {
 		fn = "check10c"
 		w.Res.Rule += "; this run: only the fault 'reply cut one byte before its end', judged by the oracles without a step model"
+	}
+	if batchedTiers {
+		fn = "check10c"
+		w.Res.Rule += "; this run: both tiers served by the batching handler through one shared pool per tier (unix sockets), judged by the oracles (answered or closed, well-formed frames, no stale value after an ack) without a step model"
 	}
 	if chunkedL1 {
 		fn = "check10c"
